@@ -1,5 +1,7 @@
 // ===================================================================================================
-// flatten(source of sources): contract template.  Handler bodies are extracted from
+// flatten(source of sources): contract template.  Inner sources greet inside the subscribing call or LATER, at top
+// level (a pending inner may meanwhile be superseded by a newer one, or the output may end: it is then told to
+// stop when it greets).  Handler bodies are extracted from
 // /repo/src/flatten.rs: subscription closure, sink talkback, outer handler, inner handler.
 // ===================================================================================================
 //@op flatten
@@ -47,6 +49,7 @@ pub open spec fn itb<T>(h: Heap, g: G<T>) -> int { h.inner_talkback->Some_0.gen@
 pub open spec fn set_inner<T>(g: G<T>, j: int, l: UpLink<T>) -> G<T> { G { inners: g.inners.update(j, l), ..g } }
 
 //@invpart safe @C17,C04 stored talkbacks refer to existing generations; a live level has its talkback stored
+//@invpart track @C11,C14,C02,C03 flatten knows whether an inner source is in progress, which one is the current one, and whether the output is over
 //@invpart gen @C11 only the latest inner generation can be alive
 //@invpart proto @C01 greeting and link phases agree; the output is over exactly when both levels are gone
 //@invpart term @C02 at most one termination per link
@@ -58,24 +61,26 @@ pub open spec fn inv_safe<T>(h: Heap, g: G<T>, c: Cap) -> bool {
     &&& (h.inner_talkback is Some ==> 0 <= itb(h, g) < g.inners.len())
     &&& (g.outer.phase == Up::Live ==> h.outer_talkback is Some)
     &&& (forall|j: int| 0 <= j < g.inners.len() && g.inners[j].phase == Up::Live ==> h.inner_talkback is Some && itb(h, g) == j)
+}
+pub open spec fn inv_track<T>(h: Heap, g: G<T>, c: Cap) -> bool {
     // the generation counter counts the inner sources subscribed so far; `inner_live` says that the latest one is in progress
     &&& h.inner_gen == g.inners.len()
     &&& (!dn_over(g.dn.phase) ==> (h.inner_live <==> g.inners.len() > 0 && alive(g.inners.last().phase)))
     &&& (h.ended <==> dn_over(g.dn.phase))
 }
 pub open spec fn inv_gen<T>(h: Heap, g: G<T>, c: Cap) -> bool {
-    &&& (forall|j: int| 0 <= j < g.inners.len() - 1 ==> !alive((#[trigger] g.inners[j]).phase))
+    &&& (forall|j: int| 0 <= j < g.inners.len() - 1 ==> (#[trigger] g.inners[j]).phase != Up::Live)
     &&& (forall|j: int| 0 <= j < g.inners.len() ==> (#[trigger] g.inners[j]).phase != Up::Idle)
     &&& (forall|j: int| 0 <= j < g.inners.len() && g.inners[j].phase == Up::Subscribing ==> (#[trigger] g.inners[j]) == (UpLink { phase: Up::Subscribing, ..up_init::<T>() }))
 }
 pub open spec fn inv_proto<T>(h: Heap, g: G<T>, c: Cap) -> bool {
     &&& g.outer.phase != Up::Subscribing || g.dn.phase == Dn::NotGreeted
     &&& (g.dn.phase == Dn::Live ==> (h.outer_talkback is Some ==> g.outer.phase == Up::Live))
-    &&& (dn_over(g.dn.phase) ==> g.outer.phase != Up::Live && forall|j: int| 0 <= j < g.inners.len() ==> !alive((#[trigger] g.inners[j]).phase))
+    &&& (dn_over(g.dn.phase) ==> g.outer.phase != Up::Live && forall|j: int| 0 <= j < g.inners.len() ==> (#[trigger] g.inners[j]).phase != Up::Live)
     &&& (g.dn.phase == Dn::NotGreeted ==> (g.outer.phase == Up::Idle || g.outer.phase == Up::Subscribing) && g.inners.len() == 0 && h.inner_talkback is None && h.outer_talkback is None)
     &&& (g.dn.phase == Dn::NotGreeted ==> g.dn.pulls == 0 && g.dn.data.len() == 0 && g.outer.pulls == 0 && g.outer.data.len() == 0)
     &&& (g.dn.phase == Dn::Live ==> g.outer.phase == Up::Live || g.outer.phase == Up::EndedBySelf)
-    &&& (g.dn.phase == Dn::Live && g.outer.phase == Up::EndedBySelf ==> h.outer_talkback is None && h.inner_talkback is Some && alive(g.inners[itb(h, g)].phase))
+    &&& (g.dn.phase == Dn::Live && g.outer.phase == Up::EndedBySelf ==> h.outer_talkback is None && h.inner_live)
 }
 pub open spec fn inv_term<T>(h: Heap, g: G<T>, c: Cap) -> bool {
     &&& g.dn.terms == (if g.dn.phase == Dn::EndedByUs { 1nat } else { 0nat })
@@ -92,9 +97,8 @@ pub open spec fn inv_fwd<T>(h: Heap, g: G<T>, c: Cap) -> bool {
 }
 pub open spec fn inv_act<T>(h: Heap, g: G<T>, c: Cap) -> bool {
     &&& (g.dn.phase == Dn::Live ==> (h.inner_talkback is Some ==> g.inners[itb(h, g)].phase == Up::Live))
-    &&& (forall|j: int| 0 <= j < g.inners.len() ==> (#[trigger] g.inners[j]).phase != Up::Subscribing)
-    // each inner is pulled by flatten itself on greeting
-    &&& (forall|j: int| 0 <= j < g.inners.len() ==> (#[trigger] g.inners[j]).pulls >= 1)
+    // each inner that is running was pulled by flatten itself on greeting
+    &&& (forall|j: int| 0 <= j < g.inners.len() && (#[trigger] g.inners[j]).phase == Up::Live ==> g.inners[j].pulls >= 1)
 }
 pub open spec fn out<T>(l: UpLink<T>) -> int { l.pulls - l.data.len() }
 pub open spec fn inv_pull<T>(h: Heap, g: G<T>, c: Cap) -> bool {
@@ -103,7 +107,9 @@ pub open spec fn inv_pull<T>(h: Heap, g: G<T>, c: Cap) -> bool {
         &&& 0 <= out(g.outer) <= 1
         &&& (forall|j: int| 0 <= j < g.inners.len() ==> 0 <= out(#[trigger] g.inners[j]))
         &&& (g.dn.phase == Dn::Live && h.inner_talkback is Some ==> g.dn.pulls - g.dn.data.len() == out(g.inners[itb(h, g)]) && (g.outer.phase == Up::Live ==> out(g.outer) == 0))
-        &&& (g.dn.phase == Dn::Live && h.inner_talkback is None ==> g.dn.pulls - g.dn.data.len() == out(g.outer))
+        &&& (g.dn.phase == Dn::Live && h.inner_talkback is None && !h.inner_live ==> g.dn.pulls - g.dn.data.len() == out(g.outer))
+        // an inner that has not greeted yet: the sink's outstanding Pull waits for its greeting
+        &&& (g.dn.phase == Dn::Live && h.inner_talkback is None && h.inner_live ==> g.dn.pulls == g.dn.data.len() + 1 && (g.outer.phase == Up::Live ==> out(g.outer) == 0))
     }
 }
 pub open spec fn ups_mono<T>(a: Seq<UpLink<T>>, b: Seq<UpLink<T>>) -> bool {
@@ -117,7 +123,7 @@ pub open spec fn mono<T>(a: Heap, ga: G<T>, b: Heap, gb: G<T>) -> bool {
     &&& (all_alloc(a) ==> all_alloc(b))
 }
 pub open spec fn sink_rel<T>(a: Heap, ga: G<T>, b: Heap, gb: G<T>, c: Cap) -> bool { true }
-pub open spec fn nothing_alive<T>(g: G<T>) -> bool { g.outer.phase != Up::Live && forall|j: int| 0 <= j < g.inners.len() ==> !alive((#[trigger] g.inners[j]).phase) }
+pub open spec fn nothing_alive<T>(g: G<T>) -> bool { g.outer.phase != Up::Live && forall|j: int| 0 <= j < g.inners.len() ==> (#[trigger] g.inners[j]).phase != Up::Live }
 
 //@include env_dn.rs OP=flatten TP=T G=G<T> GNAME=G HEAP=Heap O=T ORPHAN="nothing_alive(g)" QUIET=true LITE=false SINKGATE="k == $GATE_FLAT_DONE ==> (m is Terminate ==> g.outer.phase == Up::EndedBySelf && nothing_alive(g))"
 
@@ -279,13 +285,13 @@ impl<T> Handle<G<T>, Message<Never, Tok_inner_source_talkback>> for InnerSrc {
         if k == $GATE_SUB_KIND { m is Handshake }
         else if k == $GATE_SUB_ONCE { self.gen@ == g.inners.len() }
         else if k == $GATE_SUB_OVER { g.dn.phase == Dn::Live }
-        else if k == $GATE_PREV_INNER { forall|j: int| 0 <= j < g.inners.len() ==> !alive((#[trigger] g.inners[j]).phase) }
+        else if k == $GATE_PREV_INNER { forall|j: int| 0 <= j < g.inners.len() ==> (#[trigger] g.inners[j]).phase != Up::Live }
         else { true }
     }
     open spec fn post(&self, g: G<T>, m: Message<Never, Tok_inner_source_talkback>) -> G<T> { G { inners: g.inners.push(UpLink { phase: Up::Subscribing, ..up_init::<T>() }), ..g } }
     /// between disposing the previous inner and the greeting of the next one, the "active inner" parts do not hold
-    open spec fn needs_inv(&self, g: G<T>, m: Message<Never, Tok_inner_source_talkback>, p: int) -> bool { p != $PART_act && p != $PART_pull }
-    open spec fn extra(&self, h: Self::HH, g: G<T>, c: Self::CC, m: Message<Never, Tok_inner_source_talkback>) -> bool { pre_greet(h, self.post(g, m), c, self.gen@) }
+    open spec fn needs_inv(&self, g: G<T>, m: Message<Never, Tok_inner_source_talkback>, p: int) -> bool { true }
+    open spec fn extra(&self, h: Self::HH, g: G<T>, c: Self::CC, m: Message<Never, Tok_inner_source_talkback>) -> bool { true }
 }
 impl InnerSrc {
     #[verifier::exec_allows_no_decreases_clause]
@@ -299,6 +305,7 @@ impl InnerSrc {
             mono(*old(h), self.post(old(g)@, m), *final(h), final(g)@),
     {
         proof { g@ = self.post(g@, m); }
+        if nondet_bool() { return; }   // the inner source greets later, at top level
         flatten__inner_source_talkback(h, g, c, self.gen, nondet_gen(self.gen), Message::Handshake(InnerTb { gen: self.gen }));
         inner_events(h, g, c, self.gen);
     }
@@ -344,7 +351,7 @@ pub fn flatten__sink_talkback<T>(h: &mut Heap, g: &mut Ghost<G<T>>, c: &Cap, mes
         (message is Terminate || message is Error) ==> nothing_alive(final(g)@), /* @C04 disposal reaches both levels */
         (message is Terminate || message is Error) ==> final(g)@.dn.phase == Dn::EndedBySink, /* @C03 no termination back to a sink that disposed */
         message is Pull && old(g)@.inners.len() > 0 && old(g)@.inners.last().phase == Up::Live ==> final(g)@.inners[old(g)@.inners.len() - 1].pulls > old(g)@.inners.last().pulls, /* @C11 a Pull goes to the active inner if there is one */
-        message is Pull && !(old(g)@.inners.len() > 0 && old(g)@.inners.last().phase == Up::Live) && old(g)@.outer.phase == Up::Live ==> final(g)@.outer.pulls > old(g)@.outer.pulls, /* @C11 a Pull goes to the outer when no inner is active */
+        message is Pull && !(old(g)@.inners.len() > 0 && alive(old(g)@.inners.last().phase)) && old(g)@.outer.phase == Up::Live ==> final(g)@.outer.pulls > old(g)@.outer.pulls, /* @C11 a Pull goes to the outer when no inner is in progress */
 {
     let outer_talkback = Cell_outer_talkback {}; let inner_talkback = Cell_inner_talkback {}; let inner_live = Cell_inner_live {}; let inner_gen = Cell_inner_gen {}; let ended = Cell_ended {};
     proof { g@ = G { dn: dn_recv(g@.dn, message), ..g@ }; }
@@ -377,17 +384,17 @@ pub fn flatten__outer_source_talkback<T>(h: &mut Heap, g: &mut Ghost<G<T>>, c: &
 pub fn flatten__inner_source_talkback<T>(h: &mut Heap, g: &mut Ghost<G<T>>, c: &Cap, k: Ghost<int>, my_gen: usize, message: Message<T, InnerTb>)
     requires
         my_gen == k@ + 1,
-        message is Handshake ==> INVX!(act pull | *old(h), old(g)@, *c),
-        !(message is Handshake) ==> INV!(*old(h), old(g)@, *c),
+        INV!(*old(h), old(g)@, *c),
         0 <= k@ < old(g)@.inners.len(), !(message is Pull),
-        message is Handshake ==> pre_greet(*old(h), old(g)@, *c, k@) && message->Handshake_0.gen@ == k@,
+        message is Handshake ==> old(g)@.inners[k@].phase == Up::Subscribing && message->Handshake_0.gen@ == k@,
         !(message is Handshake) ==> old(g)@.inners[k@].phase == Up::Live,
         !(message is Handshake) && c.pullable ==> old(g)@.inners[k@].data.len() < old(g)@.inners[k@].pulls, // profile P
     ensures
         INV!(*final(h), final(g)@, *c),
         mono(*old(h), old(g)@, *final(h), final(g)@), /* @C02 phases only move forward */
         message is Error && old(g)@.dn.phase == Dn::Live ==> final(g)@.dn.phase == Dn::EndedByUs && final(g)@.dn.err == Some(message->Error_0) && nothing_alive(final(g)@), /* @C05 an inner error reaches the sink, the outer is disposed */
-        message is Handshake ==> final(g)@.inners[k@].pulls >= 1, /* @C11 an inner is pulled once on greeting */
+        message is Handshake && !dn_over(old(g)@.dn.phase) && k@ == old(g)@.inners.len() - 1 ==> final(g)@.inners[k@].pulls >= 1, /* @C11 an inner is pulled once on greeting */
+        message is Handshake && (dn_over(old(g)@.dn.phase) || k@ < old(g)@.inners.len() - 1) ==> final(g)@.inners[k@].phase == Up::EndedByUs, /* @C11 an inner that greets when the output is over, or when a newer one has replaced it, is told to stop */
 {
     let outer_talkback = Cell_outer_talkback {}; let inner_talkback = Cell_inner_talkback {}; let inner_live = Cell_inner_live {}; let inner_gen = Cell_inner_gen {}; let ended = Cell_ended {};
     let sink = SinkH {};
@@ -414,6 +421,10 @@ pub fn world<T>(c: &Cap)
             outer_events(&mut h, &mut g, c);
         } else if nondet_bool() {
             let k: Ghost<int> = nondet_ghost_int();
+            let ghost pending = 0 <= k@ < g@.inners.len() && g@.inners[k@].phase == Up::Subscribing;
+            if ghost_test(Ghost(pending)) {
+                flatten__inner_source_talkback(&mut h, &mut g, c, k, nondet_gen(k), Message::Handshake(InnerTb { gen: k }));   // a late greeting
+            }
             inner_events(&mut h, &mut g, c, k);
         } else if ghost_test(Ghost(g@.dn.phase == Dn::Live)) {
             if nondet_bool() {
